@@ -97,7 +97,9 @@ def _cfg_fire(tier):
                     for j in range(sh):
                         slo, shi = step + (rhi - step) * j / sh, step + (rhi - step) * (j + 1) / sh
                         out.append({'carrier': c, 'step_ft': step, 'wind': wind, 'rlo': rlo, 'rhi': rhi, 'mode': mode,
-                                    'unit': ['Foot', 'Meter', 'Yard', 'bare'][(i + j) % 4], 'slo': slo, 'shi': shi})
+                                    'unit': ['Foot', 'Meter', 'Yard', 'bare'][(i + j) % 4], 'slo': slo, 'shi': shi,
+                                    # the step in a form of its own (quantity in another unit / bare), bare numbers under a preferred unit of the cell
+                                    'sunit': ['bare', 'Yard', 'Foot', 'Meter', 'bare'][(i + 2 * j) % 5], 'pref': ['Foot', 'Meter', 'Yard'][(i + j) % 3]})
                 else:
                     out.append({'carrier': c, 'step_ft': step, 'wind': wind, 'rlo': rlo, 'rhi': rhi,
                                 'mode': mode, 'unit': ['Foot', 'Meter', 'Yard', 'bare'][i % 4]})
@@ -122,7 +124,7 @@ def _cfg_fire(tier):
                 'S in [max step, Rmax] as quantity in ft / m / yd or bare float; every cell of the (R, S) plane; also default step and time step',
          assumptions=['floats as reals for the symbolic record arithmetic (row distance = k*S exactly over the reals; the physics runs in true doubles)'],
          outside=['shots other than the carriers (covered by C03.filter inductively)', 'record steps smaller than the integration step'])
-def c03_fire(ctx, carrier, step_ft, wind, rlo, rhi, mode, unit, slo=None, shi=None, cant_deg=0.0):
+def c03_fire(ctx, carrier, step_ft, wind, rlo, rhi, mode, unit, slo=None, shi=None, cant_deg=0.0, sunit=None, pref='Foot'):
     p = pybc()
     U = p.Unit
     if carrier == 'Ainc':
@@ -149,17 +151,19 @@ def c03_fire(ctx, carrier, step_ft, wind, rlo, rhi, mode, unit, slo=None, shi=No
             ctx.assume(S >= step_ft)
         tau = 0.0
 
-    def q(v):
+    PU = getattr(U, pref)
+
+    def q(v, unit=unit):
         if unit == 'bare':
-            return v
+            return p.Distance.Foot(v) >> PU          # the number of preferred units
         uu = getattr(U, unit)
         return uu(p.Distance.Foot(v) >> uu)
     from harness.common import with_preferred
-    with carriers.spy_filter() as spy, with_preferred(distance=U.Foot):
+    with carriers.spy_filter() as spy, with_preferred(distance=PU):
         if mode == 'nostep':
             res = calc.fire(shot, q(R))
         else:
-            res = calc.fire(shot, q(R), q(S), False, tau)
+            res = calc.fire(shot, q(R), q(S, sunit or unit), False, tau)
     rows = res.trajectory
     c = len(rows)
     # the integration covered the requested range: the last point fed to the recorder lies beyond it
